@@ -247,6 +247,20 @@ func cmdCheck(args []string) int {
 		}
 	}
 
+	// the queries of discharged obligations are not kept (disk); those of failed and undecided ones are (replay files name them)
+	if os.Getenv("WV_KEEP_VC") == "" {
+		for _, j := range jobs {
+			if j.res.Status == "unsat" && j.res.File != "" {
+				os.Remove(j.res.File)
+				if m, _ := filepath.Glob(strings.TrimSuffix(j.res.File, ".smt2") + ".s*.smt2"); len(m) > 0 {
+					for _, f := range m {
+						os.Remove(f)
+					}
+				}
+			}
+		}
+		os.RemoveAll(filepath.Join(outDir, "vc_retry"))
+	}
 	baseline := loadBaseline(id)
 	// an edit may renumber blocks, returns and call sites: an obligation generated from a contract clause is recognised by
 	// its clause, whatever the program point it is now checked at
